@@ -1,0 +1,39 @@
+//go:build verif
+
+package blockchain
+
+import (
+	"sync/atomic"
+
+	"github.com/33cn/chain33/queue"
+	"github.com/33cn/chain33/types"
+)
+
+// Verification hooks (build tag verif): construct a Push over caller-supplied stores and reach its
+// unexported entry points from an external harness.
+
+// VerifNewPush builds a Push exactly as the node does (newpush), with the retry back-off count set.
+func VerifNewPush(store CommonStore, seqStore SequenceStore, qclient queue.Client, failSleep int32) *Push {
+	p := newpush(store, seqStore, qclient)
+	p.postFail2Sleep = failSleep
+	return p
+}
+
+// VerifAddSubscriber is addSubscriber.
+func (push *Push) VerifAddSubscriber(s *types.PushSubscribeReq) error { return push.addSubscriber(s) }
+
+// VerifTaskRunning reports whether a task for name exists and its goroutine is marked running.
+func (push *Push) VerifTaskRunning(name string) (exists bool, isRunning bool) {
+	push.mu.Lock()
+	defer push.mu.Unlock()
+	t, ok := push.tasks[string(calcPushKey(name))]
+	if !ok {
+		return false, false
+	}
+	return true, atomic.LoadInt32(&t.status) == running
+}
+
+// VerifPushKeys returns the store keys of the subscription record and of its last-pushed sequence.
+func VerifPushKeys(name string) (record []byte, lastSeq []byte) {
+	return calcPushKey(name), calcLastPushSeqNumKey(name)
+}
